@@ -34,11 +34,11 @@ func main() {
 			os.Exit(2)
 		}
 		var rf struct {
-			Property    string          `json:"property"`
-			Fingerprint string          `json:"fingerprint"`
-			Tier        string          `json:"tier"`
-			Seed        int64           `json:"seed"`
-			Message     string          `json:"message"`
+			Property    string `json:"property"`
+			Fingerprint string `json:"fingerprint"`
+			Tier        string `json:"tier"`
+			Seed        int64  `json:"seed"`
+			Message     string `json:"message"`
 		}
 		if err := json.Unmarshal(b, &rf); err != nil {
 			fmt.Fprintln(os.Stderr, err)
